@@ -389,6 +389,21 @@ var Items = []Item{
 	{ID: "slice-literal-keys-out-of-order", Core: "s := []uint64{1: 5, 0: 6}\n\tr = uint64(len(s))*100 + s[0]*10 + s[1]", NoCtx: true},
 	{ID: "slice-literal-constant-key", Decls: "const ki%N% = 2", Core: "s := []uint64{ki%N%: 5, 6}\n\tr = uint64(len(s))*100 + s[2]*10 + s[3]", NoCtx: true},
 	{ID: "slice-literal-of-structs", Decls: "type Sl%N% struct {\n\ta uint64\n}", Core: "s := []Sl%N%{{a: 1}, {a: 2}}\n\tr = uint64(len(s))*10 + s[1].a", NoCtx: true},
+	// if with an init statement × name of its variable × where the if stands (seeded change C02-14)
+	{ID: "if-init-fresh-name", Setup: "x := uint64(7)", Core: "if y := x + 100; y > 50 {\n\t\tr = y\n\t}\n\tr = r + x"},
+	{ID: "if-init-shadows-outer-in-nested-block", Setup: "x := uint64(7)", Core: "if x < 10 {\n\t\tif x := x + 100; x > 150 {\n\t\t\tr = 1\n\t\t}\n\t\tr = r + x + 7\n\t}"},
+	{ID: "if-init-shadows-outer-in-bare-block", Setup: "x := uint64(7)", Core: "{\n\t\tif x := x + 100; x > 50 {\n\t\t\tr = 1\n\t\t}\n\t\tr = r*10 + x\n\t}"},
+	{ID: "if-init-shadows-loop-variable", Core: "for i := uint64(0); i < 3; i++ {\n\t\tif i := i + 10; i > 11 {\n\t\t\tr = r + 100\n\t\t}\n\t\tr = r + i\n\t}", NoCtx: true},
+	{ID: "if-init-evaluated-once", Decls: "func bmp%N%(p *uint64) uint64 {\n\t*p = *p + 1\n\treturn *p\n}", Setup: "c := new(uint64)", Core: "if v := bmp%N%(c); v > 0 {\n\t\tr = v\n\t} else {\n\t\tr = v + 50\n\t}\n\tr = r*10 + *c"},
+	{ID: "if-init-else-if-chain", Setup: "x := uint64(7)", Core: "if y := x + 1; y > 100 {\n\t\tr = 1\n\t} else if z := y + 1; z > 5 {\n\t\tr = z + y\n\t} else {\n\t\tr = 3\n\t}"},
+	// embedded structs: the same name reachable at different depths (Go picks the shallowest; seeded change C02-15)
+	{ID: "embedded-depth-ambiguity-field", Decls: "type Hd%N% struct {\n\tid uint64\n}\n\ntype Tg%N% struct {\n\tid uint64\n}\n\ntype Mt%N% struct {\n\tHd%N%\n}\n\ntype En%N% struct {\n\tMt%N%\n\tTg%N%\n}", Core: "e := En%N%{Mt%N%: Mt%N%{Hd%N%: Hd%N%{id: 1}}, Tg%N%: Tg%N%{id: 2}}\n\tr = e.id*10 + e.Mt%N%.id", NoCtx: true},
+	{ID: "embedded-depth-ambiguity-method", Decls: "type Hd%N% struct {\n\tid uint64\n}\n\nfunc (h Hd%N%) Key() uint64 {\n\treturn h.id\n}\n\ntype Tg%N% struct {\n\tid uint64\n}\n\nfunc (t Tg%N%) Key() uint64 {\n\treturn t.id + 1000\n}\n\ntype Mt%N% struct {\n\tHd%N%\n}\n\ntype En%N% struct {\n\tMt%N%\n\tTg%N%\n}", Core: "e := En%N%{Mt%N%: Mt%N%{Hd%N%: Hd%N%{id: 1}}, Tg%N%: Tg%N%{id: 2}}\n\tr = e.Key()", NoCtx: true},
+	{ID: "embedded-depth-ambiguity-store", Decls: "type Hd%N% struct {\n\tid uint64\n}\n\ntype Tg%N% struct {\n\tid uint64\n}\n\ntype Mt%N% struct {\n\tHd%N%\n}\n\ntype En%N% struct {\n\tMt%N%\n\tTg%N%\n}", Core: "e := &En%N%{}\n\te.id = 5\n\tr = e.Tg%N%.id*10 + e.Mt%N%.Hd%N%.id", NoCtx: true},
+	{ID: "embedded-pointer-promoted-field", Decls: "type Hp%N% struct {\n\tid uint64\n}\n\ntype Ep%N% struct {\n\t*Hp%N%\n\tn uint64\n}", Core: "e := Ep%N%{Hp%N%: &Hp%N%{id: 4}, n: 2}\n\te.id = e.id + 1\n\tr = e.id*10 + e.n", NoCtx: true},
+	// append with several values
+	{ID: "append-two-values", Setup: "s := make([]uint64, 1)", Core: "s2 := append(s, 4, 5)\n\tr = uint64(len(s2))*100 + s2[1]*10 + s2[2]"},
+	{ID: "append-no-values-after-spread", Setup: "s := make([]uint64, 1)\n\tt := make([]uint64, 2)", Core: "s2 := append(s, t...)\n\tr = uint64(len(s2))"},
 	// builtins with fewer explicit arguments than operands: append(s), and a multi-valued call that supplies
 	// both operands (reported by the seed agent of C07-8: copy(g()) made goose panic)
 	{ID: "append-single-argument", Setup: "s := make([]uint64, 2)", Core: "s2 := append(s)\n\tr = uint64(len(s2))"},
@@ -474,6 +489,9 @@ var Items = []Item{
 	{ID: "recursive-struct-slice-of-self", Decls: "type Tr%N% struct {\n\tkids []Tr%N%\n\tv    uint64\n}", Core: "t := Tr%N%{v: 3}\n\tr = t.v + uint64(len(t.kids))", NoCtx: true},
 	{ID: "recursive-struct-map-of-self", Decls: "type Tm%N% struct {\n\tkids map[uint64]*Tm%N%\n\tv    uint64\n}", Core: "t := &Tm%N%{kids: make(map[uint64]*Tm%N%), v: 3}\n\tt.kids[1] = t\n\tr = t.kids[1].v", NoCtx: true},
 	{ID: "mutually-recursive-structs", Decls: "type Ma%N% struct {\n\tb *Mb%N%\n\tv uint64\n}\n\ntype Mb%N% struct {\n\ta *Ma%N%\n\tw uint64\n}", Core: "x := &Ma%N%{v: 1}\n\ty := &Mb%N%{a: x, w: 2}\n\tx.b = y\n\tr = x.b.w*10 + y.a.v", NoCtx: true},
+	// a declaration that closes a cycle AND contains another unsupported construct: one error for it, not two (seeded change C07-10)
+	{ID: "mutually-recursive-structs-second-also-unsupported", Decls: "type Nd%N% struct {\n\tedges []Ed%N%\n\tv     uint64\n}\n\ntype Ed%N% struct {\n\tfrom []Nd%N%\n\tw    int\n}", Core: "d := Nd%N%{v: 1}\n\tr = d.v + uint64(len(d.edges))", NoCtx: true},
+	{ID: "mutually-recursive-structs-first-also-unsupported", Decls: "type Nf%N% struct {\n\tedges []Ef%N%\n\tv     int\n}\n\ntype Ef%N% struct {\n\tfrom []Nf%N%\n\tw    uint64\n}", Core: "e := Ef%N%{w: 1}\n\tr = e.w + uint64(len(e.from))", NoCtx: true},
 	{ID: "mutually-recursive-functions", Decls: "func evn%N%(n uint64) bool {\n\tif n == 0 {\n\t\treturn true\n\t}\n\treturn odd%N%(n - 1)\n}\n\nfunc odd%N%(n uint64) bool {\n\tif n == 0 {\n\t\treturn false\n\t}\n\treturn evn%N%(n - 1)\n}", Core: "if evn%N%(4) {\n\t\tr = 1\n\t}"},
 	{ID: "mutually-recursive-structs-via-slices", Decls: "type Dr%N% struct {\n\tentries []En%N%\n\tv       uint64\n}\n\ntype En%N% struct {\n\tsubs []Dr%N%\n\tw    uint64\n}", Core: "d := Dr%N%{v: 1}\n\te := En%N%{w: 2}\n\tr = d.v*10 + e.w + uint64(len(d.entries)) + uint64(len(e.subs))", NoCtx: true},
 	{ID: "func-type-and-struct-cycle", Decls: "type Vs%N% func(Nv%N%) bool\n\ntype Nv%N% struct {\n\tvisit Vs%N%\n\ta     uint64\n}", Core: "n := Nv%N%{a: 3}\n\tr = n.a", NoCtx: true},
